@@ -149,3 +149,108 @@ Theorem C15_every_operation_kind_can_succeed :
      match l with [] => true | o :: r => match hstep s o with Some s' => go s' r | None => false end end) st0 demo_ops = true.
 Proof. exact demo_all_succeed. Qed.
 Print Assumptions C15_every_operation_kind_can_succeed.
+
+(** ------------------------------------------------------------------------------------------------------------
+    User transactions, governance parameters and the module accounts.
+
+    [ust] is the chain state of above plus the x/erc20 parameter EnableErc20; [uop] are: a module operation
+    ([UMod], any of the above), the parameter change ([UParamErc20], MsgUpdateParams by the governance authority),
+    and the signed bank messages MsgSend / MsgMultiSend as Haqq's bank message server executes them
+    (x/bank/keeper/msg_server.go: recipient check, then the branch on the parameter; with the module enabled a
+    denomination with a token pair is converted = escrowed in the erc20 module account and moves as ERC20 tokens).
+    [blocked] are the module accounts and the precompile addresses. *)
+
+(** The rule: a send to a blocked address is refused in every state, under BOTH values of the parameter. *)
+Theorem C15_send_to_blocked_address_rejected :
+  forall (u : ust) a c d x paired conv, blocked c = true -> ustep u (UMsgSend a c d x paired conv) = None.
+Proof. exact send_to_blocked_rejected. Qed.
+Print Assumptions C15_send_to_blocked_address_rejected.
+
+Theorem C15_multisend_to_blocked_address_rejected :
+  forall (u : ust) a d outs, existsb (fun o : N * Z => blocked (fst o)) outs = true -> ustep u (UMsgMultiSend a d outs) = None.
+Proof. exact multisend_to_blocked_rejected. Qed.
+Print Assumptions C15_multisend_to_blocked_address_rejected.
+
+(** The messages of a block history that the harness hands to the model ([hcheck]) are refused by the step
+    function in every state: the stateless predicate used there is sound. *)
+Theorem C15_rejects_blocked_sound :
+  forall o, rejects_blocked o = true -> forall u, ustep u o = None.
+Proof. exact rejects_blocked_sound. Qed.
+Print Assumptions C15_rejects_blocked_sound.
+
+(** ALL histories of user operations (sends, multi-sends, parameter changes in any order; refused ones leave no
+    trace): the distribution account still EQUALS community pool + outstanding rewards (the SDK's registered
+    "module-account" invariant of x/distribution), the bonded / not-bonded pools, the governance account and every
+    other module account but the erc20 escrow hold what they held (so whatever equation ties them to validator,
+    unbonding and deposit records, which no user send touches, still holds), pool, rewards and supply unchanged. *)
+Theorem C15_user_histories_leave_module_accounts_untouched :
+  forall (ops : list uop) (u : ust),
+    (forall o, In o ops -> is_user_op o = true /\ signed_by_user o = true) ->
+    let u' := urun ops u in
+    ((forall d, balance (bk (ust_st u)) M_DISTR d = zget (pool (ust_st u)) d + zget (outst (ust_st u)) d) ->
+     (forall d, balance (bk (ust_st u')) M_DISTR d = zget (pool (ust_st u')) d + zget (outst (ust_st u')) d)) /\
+    (forall m d, In m [M_FEECOLL; M_DISTR; M_BONDED; M_NOTBONDED; M_GOV; M_COINOMICS; M_DAO; M_LV; M_EVM; M_TRANSFER; M_ICA; M_VESTING] ->
+       balance (bk (ust_st u')) m d = balance (bk (ust_st u)) m d) /\
+    pool (ust_st u') = pool (ust_st u) /\ outst (ust_st u') = outst (ust_st u) /\ sup (bk (ust_st u')) = sup (bk (ust_st u)).
+Proof. exact user_histories_preserve_module_accounts. Qed.
+Print Assumptions C15_user_histories_leave_module_accounts_untouched.
+
+(** Module accounts change only through module operations: in ALL histories that mix user operations, parameter
+    changes and module operations, every property P of the chain state that reads only the blocked accounts (but
+    the erc20 escrow), the community pool, the outstanding rewards and the supply, and that the module operations
+    occurring in the history preserve, holds after the history if it held before. *)
+Theorem C15_module_accounts_change_only_through_module_ops :
+  forall (P : st -> Prop) (ops : list uop),
+    (forall s s',
+        (pool s' = pool s /\ outst s' = outst s /\ sup (bk s') = sup (bk s) /\
+         forall m d, blocked m = true -> m <> M_ERC20 -> balance (bk s') m d = balance (bk s) m d) -> P s -> P s') ->
+    (forall o, In (UMod o) ops -> forall s s', hstep s o = Some s' -> P s -> P s') ->
+    (forall o, In o ops -> signed_by_user o = true) ->
+    forall u, P (ust_st u) -> P (ust_st (urun ops u)).
+Proof. exact module_view_invariants_preserved. Qed.
+Print Assumptions C15_module_accounts_change_only_through_module_ops.
+
+(** Instance: the distribution account stays able to pay through every mixed history whose MODULE operations do
+    not debit it; nothing is asked of the user operations or of the parameter. *)
+Theorem C15_mixed_histories_preserve_distr_account_inv :
+  forall (ops : list uop),
+    (forall o, In (UMod o) ops -> debits_distr o = false) ->
+    (forall o, In o ops -> signed_by_user o = true) ->
+    forall u, (forall d, zget (pool (ust_st u)) d + zget (outst (ust_st u)) d <= balance (bk (ust_st u)) M_DISTR d) ->
+      (forall d, zget (pool (ust_st (urun ops u))) d + zget (outst (ust_st (urun ops u))) d <= balance (bk (ust_st (urun ops u))) M_DISTR d).
+Proof. exact mixed_histories_preserve_distr_inv. Qed.
+Print Assumptions C15_mixed_histories_preserve_distr_account_inv.
+
+(** ... and the balances add up to the supply, no balance negative, through every mixed history. *)
+Theorem C15_mixed_histories_preserve_supply_inv :
+  forall (ops : list uop) (u : ust),
+    (forall d, dsum (bal (bk (ust_st u))) d = zget (sup (bk (ust_st u))) d) ->
+    (forall a d, 0 <= balance (bk (ust_st u)) a d) ->
+    (forall d, dsum (bal (bk (ust_st (urun ops u)))) d = zget (sup (bk (ust_st (urun ops u)))) d) /\
+    (forall a d, 0 <= balance (bk (ust_st (urun ops u))) a d).
+Proof. exact mixed_histories_preserve_supply_inv. Qed.
+Print Assumptions C15_mixed_histories_preserve_supply_inv.
+
+(** Non-vacuity: user 1 is funded and the distribution account paid by module operations; governance disables
+    the ERC20 module; the sends to the distribution account and to the bonded pool are refused while the send to
+    user 2 is accepted; the module is enabled again: the send to the distribution account and a multi-send with
+    the not-bonded pool among its outputs are refused, a multi-send to users and a send of a paired denomination
+    are accepted.  Final balances of users 1-3, distribution account, the two pools; the flag. *)
+Example C15_param_flip_then_send_to_module_account :
+  accepted_flags demo_uops u0 = [true; true; true; true; false; false; true; true; false; false; true; true] /\
+  (let u := urun demo_uops u0 in
+   (balance (bk (ust_st u)) 1%N BASE, balance (bk (ust_st u)) 2%N BASE, balance (bk (ust_st u)) 3%N BASE,
+    balance (bk (ust_st u)) M_DISTR BASE, balance (bk (ust_st u)) M_BONDED BASE, balance (bk (ust_st u)) M_NOTBONDED BASE,
+    erc20_on u)) = (888, 8, 4, 100, 0, 0, true).
+Proof. exact demo_uops_flags. Qed.
+Print Assumptions C15_param_flip_then_send_to_module_account.
+
+(** Why the order of the two checks matters: with the recipient check moved behind the early return taken when
+    the ERC20 module is disabled ([u_send_late_check]), the state reached by [funding; UParamErc20 false] accepts
+    a user's send to the distribution account and the equality of that account is broken; [ustep] refuses it. *)
+Theorem C15_late_recipient_check_breaks_distr_account_refuted :
+  exists s', u_send_late_check late_u 1%N M_DISTR BASE 5 false 0 = Some s' /\
+             ~ (forall d, balance (bk s') M_DISTR d = zget (pool s') d + zget (outst s') d) /\
+             ustep late_u (UMsgSend 1%N M_DISTR BASE 5 false 0) = None.
+Proof. exact late_check_breaks_distr_eq. Qed.
+Print Assumptions C15_late_recipient_check_breaks_distr_account_refuted.
